@@ -186,6 +186,8 @@ def wf_axioms(g):
         z3.ForAll([a, p, c], z3.Implies(H(p, c), D(a, c) == z3.Or(a == c, D(a, p)))),  # last step through the unique parent
         z3.ForAll([a, c], z3.Implies(z3.And(D(a, c), a != c), z3.Exists([p], z3.And(H(p, c), D(a, p))))),
         z3.ForAll([a, c], z3.Implies(z3.And(D(a, c), a != c), z3.And(N(a), N(c)))),
+        # the ancestors of a node form a chain (forest; by induction over the unique-parent path)
+        z3.ForAll([a, b, c], z3.Implies(z3.And(D(a, c), D(b, c)), z3.Or(D(a, b), D(b, a)))),
     ]
 
 
